@@ -21,3 +21,37 @@ prop(
     exhaustive_all=["value", "readvalue"],
     assumptions=["ref.JoinType/SplitType transcribe RFC 5389 figure 3 correctly (cross-checked against RFC 5769 vector types at start-up)"],
 )
+
+prop(
+    "C01",
+    configs={"quick": ["rel", "dbg", "race"], "thorough": ["rel", "dbg", "race"]},
+    batches={"quick": 12, "thorough": 16},
+    race_batches={"quick": 4, "thorough": 8},
+    timeout={"quick": 300, "thorough": 3000},
+    rule="inputs drawn per index from a seeded generator (uniform random, cookie+plausible length, canonical valid, "
+         "dirty-valid with random padding/leading bits/trailing bytes, 1-3 structural mutations of valid messages and of the "
+         "repository fuzz corpus/RFC 5769 vectors, large (<=65555 B) and truncated messages); each input goes through 7 entry "
+         "points x 2 placements (cap==len red-zone; spare capacity poisoned 0x00/0xFF/random/plausible). evaluations = "
+         "entry-point calls; distinct_nontrivial = distinct input byte strings (FNV-64 of the bytes)",
+    max_counters=["max_alloc_bytes_per_call"],
+    assumptions=[
+        "the reference parser ref.Parse is a correct reading of RFC 5389 section 6/15 (cross-checked on RFC 5769 vectors at start-up)",
+        "allocation bound per call is 64*len(input)+4096 bytes (catches allocation proportional to a length field, not micro-regressions)",
+        "'never loops' is decided by the confirmation protocol: a journalled case that does not return alone within 60 s",
+    ],
+)
+
+prop(
+    "C02",
+    batches={"quick": 16, "thorough": 16},
+    timeout={"quick": 300, "thorough": 3000},
+    rule="(a) bounded-exhaustive length structures: declared length L=0..B (B=36 quick, 52 thorough), buffer length 20+L+d for "
+         "d in {-3,-2,-1,0,1,4,7}, and recursively every sequence of attribute length fields from {0,1,2,3,4,5,7,8,r-4..r+3,0xFFFF} "
+         "(r = remaining body), types cycling incl. 0x8020; (b) all 65536 type-field values; (c) seeded random/mutated inputs. "
+         "Each input: library Decode verdict and content vs independent parser, then Get/Contains/ForEach (complete walk, callback "
+         "error and callback panic at the k-th visit) vs list semantics. distinct_nontrivial = distinct input byte strings "
+         "(accepted ones hashed with their (count, length residues) signature) plus distinct (reject reason, length mod 64) classes",
+    assumptions=[
+        "ref.Parse is a correct reading of RFC 5389 framing with the tolerances the property lists",
+    ],
+)
